@@ -81,6 +81,7 @@ fn rerun(w: &Value) -> Option<Outcome> {
         "c17_costs" => Some(c17::run_costs(w["input"]["grammar"].as_str()?, &w["input"]["costs"].as_array()?.iter().map(|x| x.as_u64().unwrap_or(1) as u8).collect::<Vec<u8>>())),
         "c17_sets" => Some(c17::run(w["input"]["grammar"].as_str()?, w["input"]["what"].as_str()?)),
         "c16_table" => Some(c16::run(w["input"]["grammar"].as_str()?)),
+        "c19_diag" => Some(c19::run_diag(w["input"]["text"].as_str()?, w["input"]["start"].as_u64()? as usize, w["input"]["end"].as_u64()? as usize)),
         "c19_wrap" => Some(c19::run_wrap(w["input"]["text"].as_str()?, w["input"]["start"].as_u64()? as usize, w["input"]["end"].as_u64()? as usize)),
         "c19_col" => Some(c19::run_col(w["input"]["text"].as_str()?, w["input"]["byte"].as_u64()? as usize)),
         "c19_line" => Some(c19::run_line(w["input"]["text"].as_str()?, w["input"]["byte"].as_u64()? as usize)),
@@ -90,11 +91,13 @@ fn rerun(w: &Value) -> Option<Outcome> {
 
 fn search(unit: &str, tag: &str, tier: &str) -> Option<Value> {
     match unit {
+        "c19_diag" => c19::search("C19.diag.pinned", tier),
         "c19_queries" | "c19_cols" | "c19_wrap" | "c19_feed" => c19::search(tag, tier),
         "c09_ids" => c09::search(tier),
         "c02_weakly" | "c02_merge" => c02::search(tag, tier),
         "c04_pager" | "c02_itemset" => if tag.starts_with("C15") { c15::search(tag, tier) } else if tag.starts_with("C16") { c16::search(tag, tier).or_else(|| c04::search(tag, tier)) } else { c04::search(tag, tier).or_else(|| c02::search(tag, tier)) },
         "c16_gc" | "c20_states" if tag.starts_with("C16") => c16::search(tag, tier),
+        "c16_gc" if tag.starts_with("C15") => c15::search_tables(tier),
         "c07_lr" | "c04_next" => c07::search(tag, tier),
         "c06_moves" | "c06_dijkstra" | "c06_cpct" | "c06_rank" | "c05_apply" | "c05_cactus" | "c05_traverse" => if tag.starts_with("C07") { c07::search(tag, tier).or_else(|| c06::search(tag, tier)) } else { c06::search(tag, tier).or_else(|| c07::search(tag, tier)) },
         "c12_header" => c12::search(tag, tier),
